@@ -18,12 +18,13 @@ CLAIM = {
     'technique': 'interval evaluation of integer expression trees with C++ computation types; formatter/parser layout tables extracted from the CFG; static-storage state: one-entry cache idioms (first-call substitution, range of the skipped refresh)',
 }
 UNITS = [WITNESS_FIELDS]
+LOG_UNITS = ['runtime/f8utils.cpp']
 EXPLANATION = (
     "Decided: R09.1 time_to_epoch: no signed arithmetic node can exceed its type for tm_year 70..199, tm_mon 0..11, tm_mday 1..31, "
     "0..23 h, 0..59 min, 0..60 s, utcdiff 0; mon_days[i] = cumulative days before month i; R09.2 layouts: _with_ms(21) _sec_only(17) ↔ "
     "date_time_parse, _time_with_ms(12) _time_only(8) ↔ time_parse, _date_only(8) _short_date_only(6) ↔ date_parse: same "
     "(offset,width,field) list, separators at skipped offsets, equal total length, inverse field offsets; R09.3 format0 writes exactly "
-    "`width` digits, parse_decimal consumes exactly `len`. R09.5 the scratch array of every date/time stream printer is a zero-initialised automatic local. R09.6 the codec functions and the Tickval accessors they use carry no state between calls in static/thread_local locals, or the state is a one-entry cache whose first call refreshes and whose skipped refresh implies the key of the current input (equality idiom, floor idiom with a range test; other cache shapes: exit 2). NOT decided: log renderer rounding; that a cached value depends on the instant only through its key.")
+    "`width` digits, parse_decimal consumes exactly `len`. R09.5 the scratch array of every date/time stream printer is a zero-initialised automatic local. R09.6 the codec functions and the Tickval accessors they use carry no state between calls in static/thread_local locals, or the state is a one-entry cache whose first call refreshes and whose skipped refresh implies the key of the current input (equality idiom, floor idiom with a range test; other cache shapes: exit 2). R09.7 the codec and the log renderers convert through gmtime_r/localtime_r (own struct tm), never the shared-buffer gmtime/localtime. NOT decided: log renderer rounding; that a cached value depends on the instant only through its key.")
 
 
 _TOD = {}
@@ -332,6 +333,31 @@ def run(ctx):
                'FIX8::Tickval::as_tm', 'FIX8::Tickval::get_tm', 'FIX8::Tickval::secs', 'FIX8::Tickval::msecs', 'FIX8::Tickval::nsecs'):
         closure.append(prog.fn1(qn))
     memo.memo_rule(ctx, closure, 'R09.6', 'date/time codec')
+    # ---------------- R09.7 every clock-to-calendar conversion uses the caller's own struct tm: the codec (Tickval::as_tm) and the log renderers
+    # (GetTimeAsStringMS / GetTimeAsStringMini) call gmtime_r / localtime_r, never gmtime / localtime, whose result is one process-wide buffer that another
+    # thread's rendering overwrites between the conversion and the last read of it
+    progl = Program(LOG_UNITS)
+    ctx.units.update(LOG_UNITS)
+    SHARED = ('gmtime', 'localtime', 'asctime', 'ctime')
+    OWN = ('gmtime_r', 'localtime_r', 'gmtime_s', 'localtime_s')
+    n_conv = 0
+    seen7 = set()
+    for g in [prog.fn1('FIX8::Tickval::as_tm')] + [h for h in progl.all_functions() if (h.qp or '').startswith('FIX8::GetTimeAsString')]:
+        if g.loc in seen7:
+            continue
+        seen7.add(g.loc)
+        ctx.saw(g)
+        shared = [c for c in g.calls() if c.callee is not None and c.callee.get('n') in SHARED and (c.callee_qp or '') in SHARED + tuple('std::' + x for x in SHARED)]
+        own = [c for c in g.calls() if c.callee is not None and c.callee.get('n') in OWN]
+        if not shared and not own:
+            continue
+        n_conv += 1
+        ctx.check(not shared and bool(own), 'R09.7', g.qp + '#own-tm-buffer', (shared[0].loc if shared else g.loc),
+                  'the calendar conversion writes into the caller\'s own struct tm (%s)' % ', '.join(sorted({c.callee.get('n') for c in own})),
+                  '`%s` returns libc\'s single static struct tm: a rendering on another thread overwrites it between this conversion and the later reads of its fields, so a '
+                  'line shows another instant\'s date and hour with its own seconds' % (shared[0].text()[:60] if shared else ''))
+    ctx.need(n_conv >= 3, 'fewer than 3 calendar conversion sites found (%d)' % n_conv)
+    ctx.floor('R09.7', 3)
     ctx.floor('R09.2', 14)
     ctx.floor('R09.4', 2)
     ctx.floor('R09.6', 12)
